@@ -8,6 +8,7 @@ checks = sys.argv[3:] or [pid]
 HOME = os.path.expanduser("~/.cache/deserr-mut")
 mut, clean = os.path.join(HOME, "seed_" + pid), os.path.join(HOME, "clean")
 ENV = dict(os.environ, CARGO_NET_OFFLINE="true")
+FEAT = os.environ.get("SEED_DEMO_FEATURES", "")
 
 
 def sh(cmd, cwd=None, env=None, timeout=3600):
@@ -40,12 +41,12 @@ meta["what_i_ran"].append("cargo build --offline && cargo test --workspace --off
 demo = os.path.join(src, "demo.rs")
 if os.path.exists(demo):
     shutil.copy(demo, os.path.join(mut, "tests", "seed_demo.rs"))
-    rc1, out1 = sh("cargo test --offline --test seed_demo 2>&1 | tail -15", cwd=mut)
+    rc1, out1 = sh("cargo test --offline %s --test seed_demo 2>&1 | tail -15" % FEAT, cwd=mut)
     meta["demo_with_patch"] = dict(zip(("passed", "failed"), test_counts(out1)), compiles="could not compile" not in out1)
     os.remove(os.path.join(mut, "tests", "seed_demo.rs"))
     copy_repo(clean)
     shutil.copy(demo, os.path.join(clean, "tests", "seed_demo.rs"))
-    rc2, out2 = sh("cargo test --offline --test seed_demo 2>&1 | tail -15", cwd=clean)
+    rc2, out2 = sh("cargo test --offline %s --test seed_demo 2>&1 | tail -15" % FEAT, cwd=clean)
     meta["demo_without_patch"] = dict(zip(("passed", "failed"), test_counts(out2)), compiles="could not compile" not in out2)
     os.remove(os.path.join(clean, "tests", "seed_demo.rs"))
     meta["what_i_ran"].append("cargo test --offline --test seed_demo with and without the patch")
